@@ -146,5 +146,39 @@ def run(repo):
     s += "def readAssigns : List (String × String) := [\n"
     s += ",\n".join("  (%s, %s)" % (lean_str(f), lean_str(re.sub(r"\s+", " ", e).strip().replace('"', "'"))) for f, e in assigns)
     s += "]\n\n"
+    # --- header framing, version dispatch, file.rs callback mapping (shape of the source)
+    def squash(t):
+        return re.sub(r"\s+", " ", t).strip().replace('"', "'")
+    b = exlib.fn_body(mod, "read_magic", 0, rel_mod)
+    s += "/-- statements of `format::read_magic` -/\n"
+    s += "def readMagic : String := %s\n\n" % lean_str(squash(b))
+    b = exlib.fn_body(raw, "read_header", 0, rel_raw)
+    calls = re.findall(r"format::(read_[a-z_]+)\(", b)
+    s += "/-- the `format::read_*` calls of `raw::read_header`, in order -/\n"
+    s += "def readHeaderCalls : List String := [%s]\n\n" % ", ".join(lean_str(x) for x in calls)
+    b = exlib.fn_body(mod, "read_header", 0, rel_mod)
+    first = re.search(r"p\.read_([a-z_]+)\(", b)
+    if not first:
+        raise exlib.ExtractError("format::read_header of %s reads nothing from the unpacker" % rel_mod)
+    s += "/-- the first (and only) unpacker call of `format::read_header` -/\n"
+    s += "def headerTextRead : String := %s\n\n" % lean_str(first.group(1))
+    b = exlib.fn_body(raw, "from_header", 0, rel_raw)
+    arms = re.findall(r"([0-9_]+)\s*=>\s*([^,]+),", b)
+    s += "/-- arms of `Reader::from_header` -/\n"
+    s += "def fromHeaderArms : List (String × String) := [%s]\n\n" % ", ".join("(%s, %s)" % (lean_str(a), lean_str(squash(x))) for a, x in arms)
+    b = exlib.fn_body(mod, "has_ex", 0, rel_mod)
+    s += "def hasExBody : String := %s\n\n" % lean_str(squash(b))
+    rel_file = "teehistorian/src/file.rs"
+    fsrc = exlib.strip_rust_comments(exlib.read(repo, rel_file))
+    b = exlib.fn_body(fsrc, "read_at_most", 0, rel_file)
+    arms = re.findall(r"\n\s*([^\n]+?)\s*=>\s*([^\n]+?),(?=\n)", b)
+    s += "/-- arms of `file.rs` `read_at_most` (result of `File::read` => callback result) -/\n"
+    s += "def fileReadArms : List (String × String) := [%s]\n\n" % ", ".join("(%s, %s)" % (lean_str(squash(a)), lean_str(squash(x))) for a, x in arms)
+    b = exlib.fn_body(raw, "read_more", 0, rel_raw)
+    m = re.search(r"if cb\.read_buffer\(&mut self\.buffer\)\.wrap\(\)\?\.([a-z_]+)\(\)\s*\{\s*([^}]*?)\s*\}\s*else\s*\{\s*([^}]*?)\s*\}", b)
+    if not m:
+        raise exlib.ExtractError("read_more of %s no longer has the shape `if cb.read_buffer(..).wrap()?.X() { .. } else { .. }`" % rel_raw)
+    s += "/-- `read_more`: test applied to the callback result, then-branch, else-branch -/\n"
+    s += "def readMoreShape : List String := [%s]\n\n" % ", ".join(lean_str(squash(x)) for x in m.groups())
     s += "end Tw.Gen.Teehistorian\n"
     return {"Teehistorian.lean": s}
